@@ -16,7 +16,9 @@ pub fn verdict_gate(flow: &str, obs_verdict: &Verdict, out: &mut RunOut) -> bool
             false
         }
         Verdict::Panic(msg, loc) => {
-            if msg.starts_with("Stream ended (simulation quiescent)") {
+            if msg.starts_with(STEP_CAP_MSG) {
+                out.fail(format!("livelock/{flow}"), msg.clone());
+            } else if msg.starts_with("Stream ended (simulation quiescent)") {
                 // the body only awaits a record while an item it sent is still unreleased
                 out.fail(format!("owed_record_never_produced/{flow}"), format!("simulation went quiescent while a sent item was still pending: {msg}"));
             } else if panic_in_sut(loc) {
